@@ -74,9 +74,13 @@ func GenDecls(t *rapid.T, cfg GenCfg) *Decls {
 		mk(optNamePool[4+i], false)
 	}
 	if chance(t, 1, 10, "nonasciiopt") {
-		// an option whose only names are not ASCII (two letters or more: long options whether letters are counted in bytes
-		// or in characters); the spec lexer cannot spell them, OPTIONS reaches them
-		names := rapid.SampledFrom([][]string{{"--éa"}, {"--ñandú"}, {"--éa", "--ünï"}}).Draw(t, "nonasciinames")
+		// an option whose only names are not ASCII; the spec lexer cannot spell them, OPTIONS reaches them. Two letters or
+		// more: long options however letters are counted. The one-character name "é" (one letter, two bytes: the long
+		// option --é by the library's byte rule, the short option -é for an implementation counting characters) is not
+		// generated: the statements do not settle which it is, and spellings, folding and the soup token "-é" all depend
+		// on the answer
+		pool := [][]string{{"--éa"}, {"--ñandú"}, {"--éa", "--ünï"}}
+		names := rapid.SampledFrom(pool).Draw(t, "nonasciinames")
 		d.Opts = append(d.Opts, OptDecl{Names: names, Bool: chance(t, 1, 2, "nonasciiflag"), OnlyViaOptions: true})
 	}
 	if cfg.Env {
